@@ -131,29 +131,33 @@ def getProp (h : Heap) (x : Nat) (k : Str) : Val :=
       | some r => (if k = tKey then (h.trec r).t else (h.trec r).aux).getD .none
     else .none
 
+/-- `if propName in ["pe","n","g"] and hasattr(self,"peng") …: self.peng[propName]=val` -/
+def writePeng (h : Heap) (x : Nat) (k : Str) (v : Val) : Heap :=
+  if k = peKey ∨ k = nKey ∨ k = gKey then
+    match h.peng x with
+    | none => h
+    | some r =>
+      let c := h.prec r
+      let c' := if k = peKey then { c with pe := some v } else if k = nKey then { c with n := some v }
+                else { c with g := some v }
+      { h with prec := upd h.prec r c' }
+  else h
+
+/-- `if propName in ["t","aux"] and hasattr(self,"taux") …: self.taux[propName]=val` -/
+def writeTaux (h : Heap) (x : Nat) (k : Str) (v : Val) : Heap :=
+  if k = tKey ∨ k = auxKey then
+    match h.taux x with
+    | none => h
+    | some r =>
+      let c := h.trec r
+      let c' := if k = tKey then { c with t := some v } else { c with aux := some v }
+      { h with trec := upd h.trec r c' }
+  else h
+
 /-- `Constituent.setProp(propName,val)` with `inSetLemma=False` (Constituent.py:62-70) -/
 def setProp (h : Heap) (x : Nat) (k : Str) (v : Val) : Heap :=
-  let h1 : Heap :=
-    if k = peKey ∨ k = nKey ∨ k = gKey then
-      match h.peng x with
-      | none => h
-      | some r =>
-        let c := h.prec r
-        let c' := if k = peKey then { c with pe := some v } else if k = nKey then { c with n := some v }
-                  else { c with g := some v }
-        { h with prec := upd h.prec r c' }
-    else h
-  let h2 : Heap :=
-    if k = tKey ∨ k = auxKey then
-      match h1.taux x with
-      | none => h1
-      | some r =>
-        let c := h1.trec r
-        let c' := if k = tKey then { c with t := some v } else { c with aux := some v }
-        { h1 with trec := upd h1.trec r c' }
-    else h1
-  let nd := h2.node x
-  h2.setNode x { nd with props := Dict.set nd.props k v }
+  let h2 := (h.writePeng x k v).writeTaux x k v
+  h2.setNode x { h2.node x with props := Dict.set (h2.node x).props k v }
 
 end Heap
 
